@@ -31,6 +31,10 @@ fn geoms() -> Vec<VolCfg> {
         c.gen = Some(imggen::GenGeom { rsvd: 1 + (p as u16 % 3), eoc: (p % 8) as u8, ..Default::default() });
         v.push(c);
     }
+    // cluster counts exactly on the FAT-width limits (largest FAT12, smallest / largest FAT16, smallest FAT32)
+    for i in 0..vol::BOUNDARY_CLUSTERS.len() {
+        v.push(VolCfg::boundary(i));
+    }
     v
 }
 
